@@ -8,6 +8,9 @@ C06 — uncommitted and failed work leaves no trace.
 (c) generated obligations, re-checked against /repo/src on every run: every public method of
     `Bucket` / `Tx` that can mutate starts with the read-only guard (`mutators_guarded`); every public
     method is classified (`api_classified`: a new method must be added to the table, mutating or not);
+    every function of the crate that calls an inner mutator — cursors, iterator adaptors and the database
+    handle included — is one of those guarded methods, `Tx::commit`, or an inner function below them
+    (`mutation_only_below_the_guarded_api`);
     only `write_data`, `resize` and `init_file` touch the file (`file_mutation_only_in_commit`); only
     `write_data` (and the initial load in `open`) assign the shared free list.
 The byte-level half ("the file's bytes are unchanged") is decided by the correspondence run, which
@@ -91,6 +94,19 @@ theorem api_classified :
 
 theorem file_mutation_only_in_commit :
     Gen.fileMutators.all (fun f => ["db.rs:init_file", "db.rs:resize", "tx.rs:write_data"].contains f) = true := by
+  decide
+
+/-- mutation is reachable only through the guarded API: every function of the crate (whatever type it belongs
+to — a cursor, an iterator adaptor, the database handle) that calls an inner mutator is one of the guarded
+public methods of `Bucket` / `Tx` (`mutators_guarded`), `Tx::commit`, or an inner function below them -/
+theorem mutation_only_below_the_guarded_api :
+    Gen.mutatorCallSites.all (fun f =>
+      ["bucket.rs:put", "bucket.rs:delete", "bucket.rs:create_bucket", "bucket.rs:get_or_create_bucket", "bucket.rs:delete_bucket",
+       "tx.rs:create_bucket", "tx.rs:get_or_create_bucket", "tx.rs:delete_bucket", "tx.rs:commit",
+       -- inner functions, reached only from the ones above
+       "bucket.rs:put_leaf", "bucket.rs:bucket_getter", "bucket.rs:node", "bucket.rs:rebalance", "bucket.rs:merge_nodes", "bucket.rs:spill",
+       "tx.rs:write_data", "db.rs:resize", "db.rs:init_file", "node.rs:spill", "node.rs:write", "node.rs:allocate", "node.rs:free_page",
+       "freelist.rs:free", "freelist.rs:allocate"].contains f) = true := by
   decide
 
 theorem shared_freelist_only_at_commit :
